@@ -223,7 +223,36 @@ type St14 struct {
 	MSL map[string][][]int        `json:"msl"`
 }
 
+// one struct type reached twice at the same depth: through two pointer embeddings (St15), through
+// a value and a pointer embedding (St16) - its fields are ambiguous and must be ignored; reached
+// at different depths (St17) the shallower one wins
+type Leaf15 struct {
+	X int
+	Y string `json:"y"`
+}
+type L15 struct{ *Leaf15 }
+type R15 struct{ *Leaf15 }
+type P16 struct {
+	*Leaf15
+	Own int `json:"own"`
+}
+type St15 struct {
+	L15
+	R15
+	Z int `json:"z"`
+}
+type St16 struct {
+	Leaf15
+	P16
+}
+type St17 struct {
+	*Leaf15
+	L15
+	W bool `json:"w"`
+}
+
 var staticTypes = []reflect.Type{
+	reflect.TypeOf(St15{}), reflect.TypeOf(St16{}), reflect.TypeOf(St17{}), reflect.TypeOf([]St15{}),
 	reflect.TypeOf(St1{}), reflect.TypeOf(St2{}), reflect.TypeOf(St3{}), reflect.TypeOf(St4{}), reflect.TypeOf(St5{}),
 	reflect.TypeOf(St6{}), reflect.TypeOf(St7{}), reflect.TypeOf(Node{}), reflect.TypeOf(St8{}), reflect.TypeOf(St9{}),
 	reflect.TypeOf([]St1{}), reflect.TypeOf(map[string]Node{}), reflect.TypeOf([2]St5{}),
